@@ -220,17 +220,20 @@ func (c *Ctx) Result() *Result {
 
 var addrRe = regexp.MustCompile(`0x[0-9a-fA-F]+`)
 var numRe = regexp.MustCompile(`\b\d+\b`)
+var nilRecvRe = regexp.MustCompile(`value method github\.com/go-ap/activitypub\.\w+\.(\w+) called using nil \*\w+ pointer`)
+var recvRe = regexp.MustCompile(`\(\*\w+\)\.`)
 
 // PanicSig builds the crash signature: message with addresses and numbers stripped + innermost
 // library frame.
 func PanicSig(entry string, r any) (sig, msg, frame string) {
 	msg = fmt.Sprint(r)
-	m := addrRe.ReplaceAllString(msg, "ADDR")
+	m := nilRecvRe.ReplaceAllString(msg, "value method T.$1 called using nil *T pointer")
+	m = addrRe.ReplaceAllString(m, "ADDR")
 	m = numRe.ReplaceAllString(m, "N")
 	if len(m) > 120 {
 		m = m[:120]
 	}
-	frame = innermostLibFrame()
+	frame = recvRe.ReplaceAllString(innermostLibFrame(), "(*T).")
 	return "panic|" + entry + "|" + m + "|" + frame, msg, frame
 }
 
